@@ -13,14 +13,17 @@ def mc_runs(quick):
 
 
 def scen(quick):
-    return ["--waveform", 8 if quick else 40, "--romload", 8 if quick else 60]
+    return ["--waveform", 8 if quick else 40, "--romload", 8 if quick else 60, "--emudeck", 10 if quick else 30]
 
 
 def rule(quick, shards):
     return (f"{shards} shards x {8 if quick else 40} tapes of 1..3 blocks (2..40 bytes, flag 0x00 and others, all bit patterns) played to the "
             f"automatic stop under every step policy (uniform 0..16, constant 1..16, 12..16, mostly 16, machine-like <= 8): one event per edge; plus {8 if quick else 60} tapes loaded by the ROM's LD-BYTES in real time "
             "(requests issued in the pause; fast loading enabled in half of them: a playing tape is read from its waveform either way, so a request "
-            "takes at least the time of the block's pilot tone), 48K and 128K")
+            "takes at least the time of the block's pilot tone), 48K and 128K; "
+            f"plus {10 if quick else 30} tapes played twice on the whole machine through the emulator's API while the CPU runs one of five instruction "
+            "mixes (busy loop, NOPs, DJNZ loops, halted between interrupts, halted + work), the EAR level sampled after every instruction "
+            "(pulse lengths known to within the longest instruction, 28 T)")
 
 
 def selftest(pid, trace, seed):
